@@ -9,12 +9,20 @@ from .pyast import Unrecognised, clean, cstr, unparse
 
 
 class Ctx:
-    def __init__(self, attr_vars=(), enum_prefixes=(), identity_calls=(), attr_targets=(), prims=None):
+    def __init__(self, attr_vars=(), enum_prefixes=(), identity_calls=(), attr_targets=(), prims=None,
+                 objects=False, consts=None, tables=(), procs=None, record_classes=()):
         self.attr_vars = set(attr_vars) | set(attr_targets)  # source texts treated as variables, e.g. "self.prefix"
         self.attr_targets = set(attr_targets)    # attributes the method may assign / append to, e.g. "self.negative_option_strings"
         self.enum_prefixes = tuple(enum_prefixes)  # "DashVariant." ... : enum members become string constants
         self.identity_calls = set(identity_calls)  # callables that return their argument, e.g. "DashVariant", "list"
         self.prims = dict(prims or {})           # external pure helpers with a primitive in MiniPy, e.g. "utils.get_nesting_level": "ENestLevel"
+        # ---- fourth group: objects, dicts, procedures (all off by default: the older sources keep failing closed on them)
+        self.objects = objects                   # e.name reads an attribute of an object (EAttr); item / attribute assignment; dicts
+        self.consts = dict(consts or {})         # source text -> sentinel constant, e.g. "argparse.SUPPRESS"
+        self.tables = set(tables)                # method calls read as uninterpreted pure functions given by a table (ECallTable)
+        self.procs = dict(procs or {})           # callee name -> (FunctionDef, Ctx, self argument name or None): dumped procedures
+        self.record_classes = set(record_classes)
+        self.views = {}                          # X -> Y after `X = vars(Y)`: X is the live dict view of the object Y (ONE variable)
         self.local_defs = {}
         self.assigned = []
 
@@ -32,6 +40,10 @@ def one_char(node, what):
 def expr(n, c: Ctx, subst=None) -> str:
     subst = subst or {}
     src = unparse(n)
+    if c.objects:
+        r = expr4(n, c, subst, src)
+        if r is not None:
+            return r
     if src in c.attr_vars:
         return f"(EVar {cstr(src)})"
     if isinstance(n, ast.Name):
@@ -152,6 +164,232 @@ def expr(n, c: Ctx, subst=None) -> str:
     raise Unrecognised(f"expression outside the MiniPy fragment: {src[:100]}")
 
 
+# ---- fourth group: objects with attributes, dicts, sentinels, tables, procedures ------------------------------------------
+
+
+def _is_none(n):
+    return isinstance(n, ast.Constant) and n.value is None
+
+
+def expr4(n, c: Ctx, subst, src):
+    """The forms that exist only with Ctx(objects=True); None = not one of them (the older forms are tried next)."""
+    if src in c.attr_vars:
+        return None
+    if src in c.consts:
+        return f"(EConst {cstr(c.consts[src])})"
+    if isinstance(n, ast.Name) and n.id in c.views:
+        raise Unrecognised(f"the view {n.id} = vars({c.views[n.id]}) is used as a value (only .pop, `in` and Namespace(**view) are read)")
+    if isinstance(n, ast.Compare) and len(n.ops) == 1:
+        op, left, right = n.ops[0], n.left, n.comparators[0]
+        if isinstance(op, (ast.Is, ast.IsNot)) and unparse(right) in c.consts:
+            t = f"(EIsConst {expr(left, c, subst)} {cstr(c.consts[unparse(right)])})"
+            return t if isinstance(op, ast.Is) else f"(ENot {t})"
+        if isinstance(op, (ast.In, ast.NotIn)) and isinstance(right, ast.Name) and right.id in c.views:
+            t = f"(EIn {expr(left, c, subst)} (EVar {cstr(c.views[right.id])}))"       # k in vars(o)  ==  k in o (Namespace)
+            return t if isinstance(op, ast.In) else f"(ENot {t})"
+    if isinstance(n, ast.Tuple):
+        return "(ETuple [" + "; ".join(expr(e, c, subst) for e in n.elts) + "])"
+    if isinstance(n, ast.Dict):
+        if any(k is None for k in n.keys):
+            raise Unrecognised("dict display with ** unpacking")
+        return "(EDict [" + "; ".join(f"({expr(k, c, subst)}, {expr(v, c, subst)})" for k, v in zip(n.keys, n.values)) + "])"
+    if isinstance(n, ast.Attribute) and isinstance(n.ctx, ast.Load) and not src.startswith(c.enum_prefixes):
+        return f"(EAttr {expr(n.value, c, subst)} {cstr(n.attr)})"
+    if isinstance(n, ast.Subscript) and not isinstance(n.slice, ast.Slice) \
+            and not (isinstance(n.slice, ast.Constant) and isinstance(n.slice.value, int) and not isinstance(n.slice.value, bool)):
+        return f"(EGetItem {expr(n.value, c, subst)} {expr(n.slice, c, subst)})"
+    if isinstance(n, ast.Call):
+        fsrc = unparse(n.func)
+        a = n.args
+        if fsrc in c.tables and len(a) == 1 and not n.keywords and isinstance(n.func, ast.Attribute):
+            return f"(ECallTable (EAttr {expr(n.func.value, c, subst)} {cstr(n.func.attr)}) {expr(a[0], c, subst)})"
+        if fsrc == "argparse.Namespace" and not a and len(n.keywords) == 1 and n.keywords[0].arg is None \
+                and isinstance(n.keywords[0].value, ast.Name) and n.keywords[0].value.id in c.views:
+            return f"(EVar {cstr(c.views[n.keywords[0].value.id])})"      # a new Namespace with the same attributes
+        if n.keywords:
+            return None
+        if fsrc == "cast" and len(a) == 2:
+            return expr(a[1], c, subst)
+        if fsrc == "getattr" and len(a) == 2:
+            return f"(EGetAttr {expr(a[0], c, subst)} {expr(a[1], c, subst)})"
+        if fsrc == "hasattr" and len(a) == 2:
+            return f"(EHasAttr {expr(a[0], c, subst)} {expr(a[1], c, subst)})"
+        if fsrc == "vars" and len(a) == 1:
+            return f"(EVars {expr(a[0], c, subst)})"
+        if fsrc == "zip" and len(a) == 2:
+            return f"(EZip {expr(a[0], c, subst)} {expr(a[1], c, subst)})"
+        if fsrc == "isinstance" and len(a) == 2:
+            cls = a[1].elts if isinstance(a[1], ast.Tuple) else [a[1]]
+            ok = ("list", "tuple", "str", "dict") + tuple(c.record_classes)
+            if cls and all(isinstance(k, ast.Name) and k.id in ok for k in cls):
+                return f"(EIsInst {expr(a[0], c, subst)} [{'; '.join(cstr(k.id) for k in cls)}])"
+        if isinstance(n.func, ast.Attribute):
+            m, obj = n.func.attr, n.func.value
+            if m == "get" and len(a) == 2:
+                return f"(EDictGet {expr(obj, c, subst)} {expr(a[0], c, subst)} {expr(a[1], c, subst)})"
+            if m == "get" and len(a) == 1:
+                return f"(EDictGet {expr(obj, c, subst)} {expr(a[0], c, subst)} ENone)"
+            if m == "copy" and not a:
+                return f"(ECopy {expr(obj, c, subst)})"
+            if m in ("keys", "values", "items") and not a:
+                return f"({'E' + m.capitalize()} {expr(obj, c, subst)})"
+    return None
+
+
+def _path_of(target, c: Ctx, subst):
+    """x[k1].a[k2] ... as (root name, [(is_attr, key expr text)]); None when the target is not such a chain."""
+    path = []
+    t = target
+    while True:
+        if unparse(t) in c.attr_targets or isinstance(t, ast.Name):
+            break
+        if isinstance(t, ast.Subscript) and not isinstance(t.slice, ast.Slice):
+            path.append(f"(false, {expr(t.slice, c, subst)})")
+            t = t.value
+        elif isinstance(t, ast.Attribute):
+            path.append(f"(true, (EStr {cstr(t.attr)}))")
+            t = t.value
+        else:
+            return None
+    if isinstance(t, ast.Name) and (t.id in subst or t.id in c.views):
+        raise Unrecognised(f"assignment through the substituted parameter / view {t.id}")
+    root = t.id if isinstance(t, ast.Name) else unparse(t)
+    return root, list(reversed(path))
+
+
+def _pop_call(v):
+    return isinstance(v, ast.Call) and isinstance(v.func, ast.Attribute) and v.func.attr == "pop" and not v.keywords \
+        and len(v.args) in (1, 2) and (isinstance(v.func.value, ast.Name) or True)
+
+
+def _has_own_continue(body):
+    """A `continue` of THIS loop: not inside a nested loop."""
+    for s in body:
+        if isinstance(s, ast.Continue):
+            return True
+        if isinstance(s, ast.If) and (_has_own_continue(s.body) or _has_own_continue(s.orelse)):
+            return True
+    return False
+
+
+def stmt4(s, c: Ctx, subst):
+    if isinstance(s, ast.ImportFrom):
+        return []                                            # a local import binds a name only
+    if isinstance(s, ast.Continue):
+        return ["SContinue"]
+    if isinstance(s, ast.Return) and s.value is None:
+        return ["SReturn ENone"]
+    # X = vars(Y): X is the live view of Y - ONE variable
+    if isinstance(s, ast.Assign) and len(s.targets) == 1 and isinstance(s.targets[0], ast.Name) and isinstance(s.value, ast.Call) \
+            and unparse(s.value.func) == "vars" and len(s.value.args) == 1 and isinstance(s.value.args[0], ast.Name) and not s.value.keywords:
+        c.views[s.targets[0].id] = s.value.args[0].id
+        return []
+    # [t =] x.pop(k[, d])
+    tgt, val = None, None
+    if isinstance(s, ast.Assign) and len(s.targets) == 1 and isinstance(s.targets[0], ast.Name):
+        tgt, val = s.targets[0].id, s.value
+    elif isinstance(s, ast.AnnAssign) and isinstance(s.target, ast.Name) and s.value is not None:
+        tgt, val = s.target.id, s.value
+    elif isinstance(s, ast.Expr):
+        tgt, val = "_", s.value
+    if val is not None and _pop_call(val) and (isinstance(val.func.value, ast.Name) or unparse(val.func.value) in c.attr_targets):
+        x = val.func.value.id if isinstance(val.func.value, ast.Name) else unparse(val.func.value)
+        if x in subst or tgt in subst:
+            raise Unrecognised("pop on a substituted parameter")
+        k = expr(val.args[0], c, subst)
+        d = f"(Some {expr(val.args[1], c, subst)})" if len(val.args) == 2 else "None"
+        if tgt != "_":
+            c.note(tgt)
+        if x in c.views:
+            return [f"SPopAttr {cstr(tgt)} {cstr(c.views[x])} {k} {d}"]
+        return [f"SPop {cstr(tgt)} {cstr(x)} {k} {d}"]
+    # x[k1]..[kn] = e, x.a = e, setattr(x, k, e)
+    if isinstance(s, ast.Assign) and len(s.targets) == 1 and isinstance(s.targets[0], (ast.Subscript, ast.Attribute)) \
+            and unparse(s.targets[0]) not in c.attr_targets:
+        p = _path_of(s.targets[0], c, subst)
+        if p is not None and p[1]:
+            return [f"SSetPath {cstr(p[0])} [{'; '.join(p[1])}] {expr(s.value, c, subst)}"]
+    if isinstance(s, ast.Expr) and isinstance(s.value, ast.Call) and not s.value.keywords and isinstance(s.value.func, ast.Name):
+        f, a = s.value.func.id, s.value.args
+        if f == "setattr" and len(a) == 3 and isinstance(a[0], ast.Name) and a[0].id not in subst and a[0].id not in c.views:
+            return [f"SSetPath {cstr(a[0].id)} [(true, {expr(a[1], c, subst)})] {expr(a[2], c, subst)}"]
+        if f == "delattr" and len(a) == 2 and isinstance(a[0], ast.Name) and a[0].id not in subst and a[0].id not in c.views:
+            return [f"SDelAttr {cstr(a[0].id)} {expr(a[1], c, subst)}"]
+    if isinstance(s, ast.Delete) and len(s.targets) == 1 and isinstance(s.targets[0], ast.Subscript) \
+            and isinstance(s.targets[0].value, ast.Name) and not isinstance(s.targets[0].slice, ast.Slice):
+        x = s.targets[0].value.id
+        if x in subst:
+            raise Unrecognised("del on a substituted parameter")
+        if x in c.views:
+            return [f"SDelAttr {cstr(c.views[x])} {expr(s.targets[0].slice, c, subst)}"]
+        return [f"SDelItem {cstr(x)} {expr(s.targets[0].slice, c, subst)}"]
+    # x1, ..., xn = e
+    if isinstance(s, ast.Assign) and len(s.targets) == 1 and isinstance(s.targets[0], ast.Tuple) \
+            and all(isinstance(e, ast.Name) and e.id not in subst for e in s.targets[0].elts) and len(s.targets[0].elts) >= 2:
+        names = [e.id for e in s.targets[0].elts]
+        if len(set(names)) != len(names):
+            raise Unrecognised("unpacking into a repeated name")
+        for x in names:
+            c.note(x)
+        return [f"SUnpack [{'; '.join(cstr(x) for x in names)}] {expr(s.value, c, subst)}"]
+    # loops
+    if isinstance(s, ast.For) and not s.orelse:
+        if isinstance(s.target, ast.Tuple) and len(s.target.elts) == 2 and all(isinstance(e, ast.Name) for e in s.target.elts):
+            x, y = (e.id for e in s.target.elts)
+            c.note(x)
+            c.note(y)
+            return [f"SFor2 {cstr(x)} {cstr(y)} {expr(s.iter, c, subst)} [{'; '.join(block(s.body, c, subst))}]"]
+        if isinstance(s.target, ast.Name) and _has_own_continue(s.body):
+            c.note(s.target.id)
+            return [f"SForC {cstr(s.target.id)} {expr(s.iter, c, subst)} [{'; '.join(block(s.body, c, subst))}]"]
+    # a call of a dumped procedure: f(p1=a1, ...) as a statement
+    if isinstance(s, ast.Expr) and isinstance(s.value, ast.Call) and isinstance(s.value.func, ast.Name) and s.value.func.id in c.procs \
+            and not s.value.args:
+        return [proc_call(s.value, c, subst)]
+    return None
+
+
+def proc_call(call, c: Ctx, subst) -> str:
+    fn, cc, self_arg = c.procs[call.func.id]
+    params = [a.arg for a in fn.args.posonlyargs + fn.args.args]
+    if fn.args.vararg or fn.args.kwarg or fn.args.kwonlyargs:
+        raise Unrecognised(f"procedure {fn.name}: only plain parameters")
+    dflt = dict(zip(params[len(params) - len(fn.args.defaults):], fn.args.defaults))
+    given = {}
+    if self_arg is not None:
+        given[params[0]] = call.func
+    for kw in call.keywords:
+        if kw.arg is None or kw.arg not in params or kw.arg in given:
+            raise Unrecognised(f"call of {fn.name}: keyword {kw.arg}")
+        given[kw.arg] = kw.value
+    ins = []
+    for p in params:
+        if p in given:
+            ins.append((p, given[p]))
+        elif p in dflt:
+            ins.append((p, dflt[p]))
+        else:
+            raise Unrecognised(f"call of {fn.name}: no argument for {p}")
+    cc.assigned = []
+    caller_mutated = getattr(c, "caller_mutated", {})
+    extra = [p for p, a in ins if isinstance(a, ast.Name) and c.views.get(a.id, a.id) in caller_mutated]
+    body = checked_block(fn.body, cc, extra)
+    mutated = mutated_names(fn.body, cc)
+    outs, seen = [], set()
+    for p, a in ins:
+        if p in mutated:
+            if not isinstance(a, ast.Name) or a.id in subst:
+                raise Unrecognised(f"call of {fn.name}: it mutates {p}, the argument must be a variable")
+            x = c.views.get(a.id, a.id)
+            if x in seen:
+                raise Unrecognised(f"aliasing: call of {fn.name} with the same variable {x} for two mutated parameters")
+            seen.add(x)
+            outs.append((p, x))
+    ins_txt = "; ".join(f"({cstr(p)}, {expr(a, c, subst)})" for p, a in ins)
+    outs_txt = "; ".join(f"({cstr(p)}, {cstr(x)})" for p, x in outs)
+    return f"SCall [{'; '.join(body)}] [{ins_txt}] [{outs_txt}]"
+
+
 def _is_fromkeys(n):
     return isinstance(n, ast.Call) and unparse(n.func) == "dict.fromkeys" and len(n.args) == 1 and not n.keywords
 
@@ -177,6 +415,10 @@ def block(body, c: Ctx, subst=None) -> list[str]:
 
 def stmt(s, c: Ctx, subst=None) -> list[str]:
     subst = subst or {}
+    if c.objects:
+        r = stmt4(s, c, subst)
+        if r is not None:
+            return r
     if isinstance(s, ast.FunctionDef):
         if s.args.defaults or s.args.kwonlyargs or s.args.vararg or s.args.kwarg:
             raise Unrecognised(f"local def {s.name}: only plain positional parameters")
@@ -265,8 +507,8 @@ def stmt(s, c: Ctx, subst=None) -> list[str]:
 # and its object is never stored anywhere else (another name, a list display, an appended element, a call argument); it may be
 # read where only its contents are consumed (len, in, ==, slices, +, iteration that does not mutate it, extend's argument,
 # join, sorted, list(), conditions) and returned.  Everything else fails closed.
-_MUTATORS = ("append", "extend")
-_CONSUMING_CALLS = ("len", "sorted", "list", "zip", "dict.fromkeys", "isinstance")
+_MUTATORS = ("append", "extend", "pop")
+_CONSUMING_CALLS = ("len", "sorted", "list", "zip", "dict.fromkeys", "isinstance", "hasattr", "getattr", "vars")
 
 
 def _vname(node, c: Ctx):
@@ -284,29 +526,86 @@ def _fresh_list(v) -> bool:
         return True
     if isinstance(v, ast.Subscript) and isinstance(v.slice, ast.Slice):
         return True
+    if isinstance(v, ast.Dict):
+        return True
     if isinstance(v, ast.Call):
         f = unparse(v.func)
-        return f in ("sorted", "list") or (isinstance(v.func, ast.Attribute) and v.func.attr == "split")
+        return f in ("sorted", "list") or (isinstance(v.func, ast.Attribute) and v.func.attr in ("split", "copy") and not v.args)
     return False
 
 
-def alias_check(body, c: Ctx) -> None:
+def _store_root(t, c: Ctx):
+    """x for a store target x[k].. / x.a.. (None for a plain name or an attribute that is a variable of its own)."""
+    depth = 0
+    while isinstance(t, (ast.Subscript, ast.Attribute)) and unparse(t) not in c.attr_vars:
+        t = t.value
+        depth += 1
+    nm = _vname(t, c)
+    return (nm, depth) if depth and nm is not None else (None, 0)
+
+
+def mutated_names(body, c: Ctx, views=None) -> dict:
+    """name -> deepest mutation path (1: the object itself is changed, 2: an object stored inside it is changed)."""
+    views = views if views is not None else _views_of(body)
+    out = {}
+
+    def add(nm, depth=1):
+        nm = views.get(nm, nm)
+        out[nm] = max(out.get(nm, 0), depth)
+    for n in ast.walk(ast.Module(body=list(body), type_ignores=[])):
+        if isinstance(n, ast.Call) and isinstance(n.func, ast.Attribute) and n.func.attr in _MUTATORS:
+            t = _vname(n.func.value, c)
+            if t is not None:
+                add(t)
+        if isinstance(n, (ast.Assign, ast.AnnAssign, ast.AugAssign, ast.Delete)):
+            for t in (n.targets if isinstance(n, (ast.Assign, ast.Delete)) else [n.target]):
+                nm, depth = _store_root(t, c)
+                if nm is not None:
+                    add(nm, depth)
+        if isinstance(n, ast.Call) and unparse(n.func) in ("setattr", "delattr") and n.args and _vname(n.args[0], c):
+            add(_vname(n.args[0], c))
+        if isinstance(n, ast.Call) and isinstance(n.func, ast.Name) and n.func.id in c.procs:
+            fn, cc, self_arg = c.procs[n.func.id]
+            inner = mutated_names(fn.body, cc)
+            for kw in n.keywords:
+                if kw.arg in inner and _vname(kw.value, c):
+                    add(_vname(kw.value, c), inner[kw.arg])
+    return out
+
+
+def _views_of(body) -> dict:
+    v = {}
+    for n in ast.walk(ast.Module(body=list(body), type_ignores=[])):
+        if isinstance(n, ast.Assign) and len(n.targets) == 1 and isinstance(n.targets[0], ast.Name) and isinstance(n.value, ast.Call) \
+                and unparse(n.value.func) == "vars" and len(n.value.args) == 1 and isinstance(n.value.args[0], ast.Name):
+            v[n.targets[0].id] = n.value.args[0].id
+    return v
+
+
+def alias_check(body, c: Ctx, extra=()) -> None:
     root = ast.Module(body=list(body), type_ignores=[])
     parent = {}
     for n in ast.walk(root):
         for ch in ast.iter_child_nodes(n):
             parent[ch] = n
-    mutated = set()
-    for n in ast.walk(root):
-        if isinstance(n, ast.Call) and isinstance(n.func, ast.Attribute) and n.func.attr in _MUTATORS:
-            t = _vname(n.func.value, c)
-            if t is not None:
-                mutated.add(t)
+    views = _views_of(body)
+    depth_of = mutated_names(body, c, views)
+    for x in extra:
+        depth_of.setdefault(x, 1)
+    mutated = set(depth_of)
+    for x, y in views.items():          # the view and its object are ONE variable: neither is ever bound again
+        if y in mutated:
+            mutated.add(x)
+        for n in ast.walk(root):
+            if isinstance(n, ast.Name) and isinstance(n.ctx, ast.Store) and n.id in (x, y):
+                p = parent.get(n)
+                if not (isinstance(p, ast.Assign) and p.value is not None and isinstance(p.value, ast.Call) and unparse(p.value.func) == "vars"):
+                    raise Unrecognised(f"aliasing: {n.id} is bound again although {x} = vars({y}) is a live view")
     if not mutated:
         return
 
     def bad(name, why):
-        raise Unrecognised(f"aliasing: the list {name} is mutated (append/extend) and {why}")
+        raise Unrecognised(f"aliasing: the list {name} is mutated (append/extend) and {why}" if True else "")
 
     def mutates(stmts, name):
         for s in stmts:
@@ -328,9 +627,22 @@ def alias_check(body, c: Ctx) -> None:
         for t, v in binds:
             direct = _vname(t, c)
             if direct in mutated:
+                if direct in views and v is not None and isinstance(v, ast.Call) and unparse(v.func) == "vars":
+                    continue
                 if v is None or not _fresh_list(v):
                     bad(direct, "is bound to a value that may be shared with another name")
+                if isinstance(v, ast.Call) and isinstance(v.func, ast.Attribute) and v.func.attr == "copy" and depth_of.get(direct, 0) >= 2:
+                    # a shallow copy shares the inner objects: the original must be dead from here on
+                    src_name = _vname(v.func.value, c)
+                    if src_name is None:
+                        bad(direct, "is a shallow copy of an expression and objects inside it are mutated")
+                    for m in ast.walk(root):
+                        if isinstance(m, (ast.Name, ast.Attribute)) and _vname(m, c) == src_name and m is not v.func.value \
+                                and getattr(m, "lineno", 0) >= n.lineno:
+                            bad(direct, f"is a shallow copy of {src_name}, which is used again afterwards, while objects inside it are mutated")
                 continue
+            if _store_root(t, c)[0] is not None:
+                continue                      # x[k] = .. / x.a = ..: a mutation of x, not a binding
             for leaf in ast.walk(t):
                 nm = _vname(leaf, c) if isinstance(leaf, (ast.Name, ast.Attribute)) else None
                 if nm in mutated:
@@ -343,8 +655,8 @@ def alias_check(body, c: Ctx) -> None:
     # uses of a mutated name: only where its contents are consumed
     def consumed(node, name):
         p = parent.get(node)
-        if isinstance(p, ast.Attribute):                       # name.method(..)
-            return isinstance(parent.get(p), ast.Call) and parent[p].func is p
+        if isinstance(p, ast.Attribute):                       # name.method(..) / name.attribute (an object inside it, like name[k])
+            return True
         if isinstance(p, ast.Call):
             f = unparse(p.func)
             if node in p.args:
@@ -352,6 +664,15 @@ def alias_check(body, c: Ctx) -> None:
                     return True
                 if isinstance(p.func, ast.Attribute) and p.func.attr in ("extend", "join"):
                     return True
+                if f in ("setattr", "delattr") and p.args[0] is node:
+                    return True
+            return False
+        if isinstance(p, ast.keyword):
+            call = parent.get(p)
+            if isinstance(call, ast.Call) and isinstance(call.func, ast.Name) and call.func.id in c.procs:
+                return True                 # an argument of a dumped procedure: proc_call checks the callee with this parameter as mutated
+            if isinstance(call, ast.Call) and unparse(call.func) == "argparse.Namespace" and p.arg is None:
+                return True                 # Namespace(**view): a new object
             return False
         if isinstance(p, (ast.Compare, ast.UnaryOp, ast.BinOp, ast.FormattedValue, ast.Return)):
             return True
@@ -371,8 +692,10 @@ def alias_check(body, c: Ctx) -> None:
             return True if p.test is node else consumed(p, name)
         if isinstance(p, ast.BoolOp):
             return consumed(p, name)
-        if isinstance(p, ast.List):                            # a list display that is returned at once: nothing runs afterwards
+        if isinstance(p, (ast.List, ast.Tuple)):               # a display that is returned at once: nothing runs afterwards
             return isinstance(parent.get(p), ast.Return)
+        if isinstance(p, ast.Delete):
+            return True
         return False
 
     for n in ast.walk(root):
@@ -423,7 +746,14 @@ def fromkeys_check(body, c: Ctx) -> None:
                 raise Unrecognised(f"{n.id} (a dict.fromkeys(..)) is used as a value in `{unparse(parent.get(n))[:60]}`")
 
 
+def checked_block(body, c: Ctx, extra=()) -> list[str]:
+    alias_check(body, c, extra)
+    fromkeys_check(body, c)
+    return block(body, c)
+
+
 def method_block(fn: ast.FunctionDef, c: Ctx) -> tuple[str, list[str]]:
+    c.caller_mutated = mutated_names(fn.body, c)
     alias_check(fn.body, c)
     fromkeys_check(fn.body, c)
     ss = block(fn.body, c)
